@@ -379,7 +379,7 @@ def obligations(tier, seed):
     q = tier == "quick"
     out = C02.gen_obligations(tier, seed, ["int", "str"], alphabet, run_model,
                               lambda o: o[0] in ("add_node", "add_edge", "remove_edge", "remove_node"),
-                              max_states=(90, 300), max_depth=(4, 5))
+                              max_states=(90, 150), max_depth=(4, 5), stride_k=(3, 8))
     rng = random.Random(seed + 1)
     for uni, weighted in ([("int", True), ("int", False)] if q else [(u, w) for u in ("int", "str") for w in (True, False)]):
         U = UNIVERSES[uni]
@@ -414,7 +414,7 @@ META = {
                  "cap 90, x 3 ops, incl. the weighted batch with one node set in two layers); aggregation / overlap on "
                  "states within 3 insertions (cap 60) + 10 seeded bases; weights, metadata values, degree filter "
                  "symbolic integers",
-        "thorough": "both label universes; states within 5 ops (cap 300) x 12 ops (stride) x two histories; aggregation on "
+        "thorough": "both label universes; states within 5 ops (cap 150) x 8 ops (stride) x two histories; aggregation on "
                     "states within 4 insertions (cap 300) + 60 seeded bases",
     },
     "stand_ins": [],
